@@ -266,9 +266,17 @@ func (g *gen) regBad() int {
 		return -1
 	}
 	k := vPick(g.r, ks)
-	// only foreign observables: the SDK registers nothing. (With a mix of own and foreign observables sdk/metric
-	// returns BOTH a live Registration and an error; see the remark in checks/C16.json → assumptions.)
+	// only foreign observables: the SDK registers nothing; with own observables as well (every other time, if the meter
+	// has one) the SDK registers the callback for those and returns a live Registration TOGETHER with an error (former
+	// finding F50) — unless the foreign instrument's meter has not been delegated yet (Go map order): rejected as a whole
 	sel := []string{strconv.Itoa(foreign.id)}
+	if g.r.Intn(2) == 0 {
+		for _, i := range obs {
+			if i.meter == k && (len(sel) == 1 || g.r.Intn(2) == 0) {
+				sel = append(sel, strconv.Itoa(i.id))
+			}
+		}
+	}
 	for _, i := range obs {
 		if i.meter == foreign.meter && i.id != foreign.id && g.r.Intn(3) == 0 {
 			sel = append(sel, strconv.Itoa(i.id))
